@@ -24,6 +24,8 @@ import (
 	"time"
 
 	bleve "github.com/blevesearch/bleve/v2"
+	"github.com/blevesearch/bleve/v2/index/scorch"
+	"sync/atomic"
 
 	"verif/harness/internal/core"
 	"verif/harness/internal/sx"
@@ -58,10 +60,35 @@ func scenarios(c *core.Ctx) []scenario {
 			"NumPersisterWorkers": 3, "MaxSizeInMemoryMergePerWorker": 1}}, false, true, true)
 		add(fmt.Sprintf("unsafe-1w-keep2-%d", i), c.Pick(12, 30), 1, false, map[string]interface{}{"numSnapshotsToKeep": 2}, true, true, false)
 	}
+	// the application vetoes merges for a while through scorch's event callback
+	registerVeto()
+	for i := 0; i < n; i++ {
+		add(fmt.Sprintf("unsafe-2w-veto-%d", i), c.Pick(14, 40), 2, false, map[string]interface{}{"eventCallbackName": "verif-c12-veto"}, true, false, true)
+	}
 	if c.Thorough() {
 		add("long-unsafe", 300, 2, false, nil, true, true, true)
 	}
 	return out
+}
+
+var vetoOnce sync.Once
+var vetoCount int64
+
+// registerVeto installs an application callback that vetoes two out of three
+// merge attempts (EventKindPreMergeCheck) — a documented use of the callback.
+func registerVeto() {
+	vetoOnce.Do(func() {
+		scorch.RegistryEventCallbacks["verif-c12-veto"] = func(e scorch.Event) bool {
+			if e.Kind == scorch.EventKindPreMergeCheck {
+				n := atomic.AddInt64(&vetoCount, 1)
+				if n%3 != 0 {
+					time.Sleep(200 * time.Microsecond)
+					return false
+				}
+			}
+			return true
+		}
+	})
 }
 
 // runScenario executes one scenario and returns the records for TraceFiles.
@@ -98,6 +125,7 @@ func runScenario(c *core.Ctx, sc scenario, seed int64) ([]any, error) {
 		}()
 	}
 	var copyErr error
+	var copyMu sync.Mutex
 	if sc.Copies {
 		wg.Add(1)
 		go func() {
@@ -113,11 +141,25 @@ func runScenario(c *core.Ctx, sc scenario, seed int64) ([]any, error) {
 				dest := filepath.Join(filepath.Dir(dir), fmt.Sprintf("copy-%d", n))
 				n++
 				if cp, ok := r.Idx.(bleve.IndexCopyable); ok {
-					if err := cp.CopyTo(bleve.FileSystemDirectory(dest)); err != nil && copyErr == nil {
-						copyErr = err
+					// two overlapping copies (usually of the same root epoch)
+					var cwg sync.WaitGroup
+					for k := 0; k < 2; k++ {
+						cwg.Add(1)
+						go func(k int) {
+							defer cwg.Done()
+							d := fmt.Sprintf("%s-%d", dest, k)
+							if err := cp.CopyTo(bleve.FileSystemDirectory(d)); err != nil {
+								copyMu.Lock()
+								if copyErr == nil {
+									copyErr = err
+								}
+								copyMu.Unlock()
+							}
+							_ = os.RemoveAll(d)
+						}(k)
 					}
+					cwg.Wait()
 				}
-				_ = os.RemoveAll(dest)
 			}
 		}()
 	}
@@ -132,7 +174,14 @@ func runScenario(c *core.Ctx, sc scenario, seed int64) ([]any, error) {
 				default:
 				}
 				time.Sleep(time.Duration(3000+rng.Intn(8000)) * time.Microsecond)
-				_ = r.ForceMerge()
+				switch rng.Intn(4) {
+				case 0:
+					_ = r.ForceMergeCancelled(0) // a merge that is cancelled before it starts
+				case 1:
+					_ = r.ForceMergeCancelled(time.Duration(rng.Intn(1500)) * time.Microsecond) // ... or half way
+				default:
+					_ = r.ForceMerge()
+				}
 			}
 		}()
 	}
